@@ -1108,6 +1108,10 @@ class Ev:
                 got = self.repo.find_method(c, attr)
                 if got[1] is not None:
                     owner, fn = got
+                    if decorators(fn) & {"cached_property", "functools.cached_property"}:
+                        # computed at the first read and kept in the instance under its own name
+                        v.fields[attr] = self.call_fn(FuncV(fn, self_val=v, cls=owner, mod=owner.mod), [], {}, node)
+                        return v.fields[attr]
                     return self.bind(fn, owner, v)
                 for c_ in self.repo.mro(c):
                     if attr in c_.class_assigns and c_.class_assigns[attr] is not None:
@@ -1520,6 +1524,17 @@ class Ev:
                     raise
             fin = self.block(st.finalbody, env, mod)
             return fin if fin is not None else r
+        if isinstance(st, ast.With) and len(st.items) == 1 and st.items[0].optional_vars is None and isinstance(st.items[0].context_expr, ast.Call) and norm(st.items[0].context_expr.func) in ("suppress", "contextlib.suppress") and not st.items[0].context_expr.keywords:
+            # with suppress(E1, ..): the block; an exception of one of these kinds ends the block quietly
+            names = [norm(t).split(".")[-1] for t in st.items[0].context_expr.args]
+            try:
+                return self.block(st.body, env, mod)
+            except _Raise as x:
+                if "Exception" in names or "BaseException" in names or (x.exc is not None and x.exc in names):
+                    return None
+                if x.exc is None:
+                    raise AnalysisError("exception of unknown type (%s) meets suppress(..) at line %d" % (x.what, st.lineno))
+                raise
         if isinstance(st, ast.Delete):
             for t in st.targets:
                 if isinstance(t, ast.Attribute):
